@@ -27,6 +27,8 @@ F_SYM = [
     "C(A, contr.helmert):a + b", "center(a):center(b)",
     # stateful transforms nested inside other calls / expressions (their state is keyed by the call text, not by a factor)
     "poly(center(a), 2)", "{center(a) * 2}:A + b", "scale(center(b)) + a",
+    # the same stateful call twice in one expression / in two factors
+    "{center(a) * center(a)} + b", "center(a) + center(a):A", "{scale(b) + scale(b, ddof=0)}",
 ]
 # formulas trained on concrete data (data-dependent knots), followed up with symbolic rows
 F_CONC = F_SYM + [
